@@ -165,6 +165,9 @@ def nf(tu, n, env=None, depth=0):
                     for prm, av in zip(c['params'], a):
                         env2[prm['id']] = av
                     return nf(tu, tu.kids(sts[0])[0], env2, depth + 1)      # private static helper: same term
+        if o is not None and o[0] == 'call' and not o[3] and o[2] is not None and \
+                re.match(r'^std::(__)?(shared|unique)_ptr(_access)?::get$', o[1]):
+            o = ('deref', o[2])         # sp.get()->f() is sp->f()
         return ('call', q, o, tuple(a))
     if k in ('CXXConstructExpr', 'CXXTemporaryObjectExpr'):
         a = [R(x) for x in ks if x.get('kind') != 'CXXDefaultArgExpr']
@@ -1238,6 +1241,129 @@ def check_for_each(ctx, tu):
     ctx.floor(R, n, 4, 'for_each instantiations in %s (2 loop nests + 2 wrappers; 6 on the pinned tree)' % AST_DRIVER)
 
 
+def named_decl(tu, n):
+    """id of the declaration an expression names, looking through casts and std::forward / std::move"""
+    for _ in range(4):
+        n = tu.strip(n, casts=True) if n is not None else None
+        if n is not None and n.get('kind') == 'CallExpr':
+            s_, _, args = tu.call_parts(n)
+            if strip_targs(s_.get('q', '')) in ('std::forward', 'std::move') and len(args) == 1:
+                n = args[0]
+                continue
+        break
+    if n is not None and n.get('kind') == 'DeclRefExpr':
+        return n.get('referencedDecl', {}).get('id')
+    return None
+
+
+def callable_route(tu, c, pidx, depth=0):
+    """What happens to the object bound to parameter pidx of the instantiated function c: -> (problems, undecided, invoked).
+    The parameter must be of reference type (else the function works on a copy of the caller's object), and the body must invoke it,
+    or hand it on by reference, without copying it into a local of object type first."""
+    probs, und = [], []
+    if c is None or tu.body(c) is None or pidx >= len(c.get('params', [])) or depth > 6:
+        return probs, ['callee of the call that receives the functor could not be followed'], False
+    prm = c['params'][pidx]
+    nargs = len(c['params'])
+    if not prm['ct'].rstrip().endswith('&'):
+        probs.append(('functor-by-value', nargs, tu.fn_loc(c),
+                      'for_each with %d parameters declares its functor parameter `%s` by value: for a callable passed as an lvalue the '
+                      'template argument used to deduce to a reference (Functor &&), so the caller\'s own object was invoked; now its type '
+                      'is %s, a copy is invoked once per cell and then discarded (it is not returned either), so a callable that keeps its '
+                      'result in itself - a function object with members, a named mutable lambda - sees no visit at all, and the overloads '
+                      'disagree with each other on the same region' % (nargs, prm['name'], prm['ct'])))
+        return probs, und, False
+    alias, copies = {prm['id']}, {}
+    invoked = False
+    for x in tu.walk(tu.body(c)):
+        k = x.get('kind')
+        if k == 'VarDecl' and tu.kids(x):
+            src = named_decl(tu, tu.kids(x)[-1])
+            init = tu.strip(tu.kids(x)[-1], casts=True)
+            if src is None and init is not None and init.get('kind') in ('CXXConstructExpr', 'CXXTemporaryObjectExpr') and len(tu.kids(init)) == 1:
+                src = named_decl(tu, tu.kids(init)[0])
+            if src in alias:
+                if (x.get('type') or {}).get('qualType', '').rstrip().endswith('&'):
+                    alias.add(x['id'])
+                else:
+                    copies[x['id']] = x
+            continue
+        if k not in ('CallExpr', 'CXXOperatorCallExpr', 'CXXMemberCallExpr'):
+            continue
+        s_, obj, args = tu.call_parts(x)
+        q = strip_targs(s_.get('q', ''))
+        if q in ('std::forward', 'std::move'):
+            continue
+        if q.endswith('::operator()') and obj is not None:
+            d = named_decl(tu, obj)
+            if d in alias:
+                invoked = True
+            elif d in copies:
+                probs.append(('functor-copied', nargs, tu.fn_loc(c),
+                              'invokes `%s`, a local copy of its functor parameter, instead of the caller\'s object: what the callable '
+                              'records in itself is lost' % copies[d].get('name')))
+            continue
+        for j, av in enumerate(args):
+            d = named_decl(tu, av)
+            if d in alias or d in copies:
+                if d in copies:
+                    probs.append(('functor-copied', nargs, tu.fn_loc(c),
+                                  'hands `%s`, a local copy of its functor parameter, on to %s instead of the caller\'s object'
+                                  % (copies[d].get('name'), q.split('::')[-1])))
+                    continue
+                c2 = tu.callee_fn(x)
+                p2, u2, i2 = callable_route(tu, c2, j, depth + 1)
+                probs += p2
+                und += u2
+                invoked = invoked or i2
+    return probs, und, invoked
+
+
+def check_for_each_callable(ctx, tu):
+    """R-C17-4 (callable identity): for_each visits the region *with the caller's callable*.  The driver hands a named object to each
+    overload with deduced template arguments; the instance chosen must take it by reference and pass it by reference down to the
+    call in the loop nest."""
+    R = 'R-C17-4'
+    fs = [f for f in tu.functions.values() if f['q'] == 'rkverif_visit_lvalue' and tu.body(f) is not None]
+    if not fs:
+        ctx.broken('%s: driver function rkverif_visit_lvalue is missing from %s' % (R, AST_DRIVER))
+        return
+    f = fs[0]
+    vid = f['params'][-1]['id']
+    n = 0
+    for x in tu.walk(tu.body(f)):
+        if x.get('kind') != 'CallExpr':
+            continue
+        s_, _, args = tu.call_parts(x)
+        if strip_targs(s_.get('q', '')) != 'rkcommon::array3D::for_each':
+            continue
+        def names_v(av):
+            if named_decl(tu, av) == vid:
+                return True
+            e_ = tu.strip(av, casts=True)      # a by-value parameter is initialised by a copy construction from v
+            return e_ is not None and e_.get('kind') == 'CXXConstructExpr' and len(tu.kids(e_)) == 1 and named_decl(tu, tu.kids(e_)[0]) == vid
+        js = [j for j, av in enumerate(args) if names_v(av)]
+        if len(js) != 1:
+            continue
+        n += 1
+        c = tu.callee_fn(x)
+        inst = 'for_each with %d arguments called with an lvalue callable' % len(args)
+        probs, und, invoked = callable_route(tu, c, js[0])
+        seen = set()
+        for kind, nargs, loc, why in probs:
+            if (kind, nargs) not in seen:
+                seen.add((kind, nargs))
+                ctx.violation(R, inst, why, loc, key='%s|%s|for_each(%d)|%s' % (R, FE, nargs, kind))
+        if probs:
+            continue
+        if und or not invoked:
+            ctx.undecided(R, inst, '; '.join(und) or 'no invocation of the functor parameter found along the calls', tu.fn_loc(c) if c else FE)
+        else:
+            ctx.ok(R, inst, 'the functor parameter is a reference at every level (%s) and the loop nest invokes that object'
+                   % (c['params'][js[0]]['ct']), tu.fn_loc(c))
+    ctx.floor(R, n, 3, 'for_each overloads called with an lvalue callable by %s' % AST_DRIVER)
+
+
 def check_iterator_lifetime(ctx, tu):
     """R-C17-4 (lifetime): a multidim_index_iterator that keeps the *address* of a constructor argument must never be built
     from a temporary and then returned: the value of ++it / --it / begin() / end() would refer to a destroyed object"""
@@ -1606,6 +1732,260 @@ def clamp_bounds(c, x):
     return None
 
 
+def member_writes(tu, body):
+    """members of *this assigned / incremented in a function body: name -> node of the first store"""
+    written = {}
+
+    def note(l_, x):
+        l_ = tu.strip(l_) if l_ is not None else None
+        if l_ is not None and l_.get('kind') == 'MemberExpr' and tu.kids(l_) and tu.is_this(tu.kids(l_)[0]):
+            written.setdefault(l_.get('name'), x)
+    for x in tu.walk(body) if body else []:
+        k = x.get('kind')
+        if k in ('BinaryOperator', 'CompoundAssignOperator') and x.get('opcode', '').endswith('=') and \
+                x.get('opcode') not in ('==', '!=', '<=', '>=') and tu.kids(x):
+            note(tu.kids(x)[0], x)
+        elif k == 'UnaryOperator' and x.get('opcode') in ('++', '--') and tu.kids(x):
+            note(tu.kids(x)[0], x)
+        elif k == 'CXXOperatorCallExpr' and tu.kids(x):
+            q_ = strip_targs(tu.sd(x).get('q', ''))
+            if re.search(r'operator(=|\+=|-=|\*=|/=|\+\+|--|\|=|&=)$', q_):
+                ks_ = tu.kids(x)
+                note(ks_[1] if len(ks_) > 1 else None, x)
+    return written
+
+
+LOCKS = re.compile(r'lock_guard|unique_lock|scoped_lock|mutex|spin_?lock', re.I)
+
+
+def check_get_is_readonly(ctx, tu, f, R, inst, key):
+    """get() is a const query of an immutable view: any number of threads may sample the same object.  A store into a member of
+    the object (possible in a const function only for `mutable` members) that is neither atomic nor made under a lock is a data
+    race, and a value kept in several members (a key and what it resolved to) is torn by interleaved stores.
+    -> True when a violation was reported"""
+    body = tu.body(f)
+    wr = member_writes(tu, body)
+    if not wr:
+        return False
+    rec = tu.records.get(f.get('recid')) or {}
+    ftype = {f_['name']: f_.get('type') or f_.get('ct') or '' for f_ in rec.get('fields', [])}
+    plain = sorted(m for m in wr if 'atomic' not in ftype.get(m, ''))
+    locked = any(LOCKS.search((x.get('type') or {}).get('qualType', '')) for x in tu.walk(body) if x.get('kind') == 'VarDecl')
+    if not plain or locked:
+        ctx.undecided(R, inst, 'get() stores into the member(s) %s under a lock / as atomics: not decided' % ', '.join(sorted(wr)), tu.fn_loc(f))
+        return True
+    # the stored members must also feed the result (a cache); a member that is only written (a counter) cannot change the cell returned
+    lhs_ids = set()
+    reads = set()
+    for x in tu.walk(body):
+        k = x.get('kind')
+        ks_ = tu.kids(x)
+        l_ = None
+        if k in ('BinaryOperator', 'CompoundAssignOperator') and x.get('opcode', '').endswith('=') and \
+                x.get('opcode') not in ('==', '!=', '<=', '>=') and ks_:
+            l_ = tu.strip(ks_[0])
+        elif k == 'UnaryOperator' and x.get('opcode') in ('++', '--') and ks_:
+            l_ = tu.strip(ks_[0])
+        elif k == 'CXXOperatorCallExpr' and len(ks_) > 1 and re.search(r'operator(=|\+=|-=|\*=|/=|\+\+|--|\|=|&=)$',
+                                                                       strip_targs(tu.sd(x).get('q', ''))):
+            l_ = tu.strip(ks_[1])
+        if l_ is not None and l_.get('kind') == 'MemberExpr':
+            lhs_ids.add(l_.get('id'))
+    for x in tu.walk(body):
+        if x.get('kind') == 'MemberExpr' and x.get('name') in plain and tu.kids(x) and tu.is_this(tu.kids(x)[0]) and x.get('id') not in lhs_ids:
+            reads.add(x.get('name'))
+    if not reads:
+        ctx.undecided(R, inst, 'get() stores into the member(s) %s but never reads them: not a cache, effect on the result not decided'
+                      % ', '.join(plain), tu.fn_loc(f))
+        return True
+    cls = inst.split('<')[0]
+    ctx.violation(R, inst, 'the const query get() stores into the member%s %s of its own object (mutable, not atomic, no lock held): the '
+                  'views are immutable and are sampled by several threads at once, so the stores race%s; get() has to compute the cell '
+                  'from its argument and the constructor-time members only'
+                  % ('s' if len(plain) > 1 else '', ', '.join('`%s`' % m for m in plain),
+                     ' - with the remembered result spread over %d members, a reader can pair `%s` written by one thread with `%s` written '
+                     'by another and then returns the cell of a different %s than its definition names, also for every later call that '
+                     'hits the cached key' % (len(plain), plain[0], plain[1], 'slice' if cls == 'MultiSliceArray3D' else 'location')
+                     if len(plain) > 1 else ''),
+                  tu.loc(wr[plain[0]]), key=key + 'unsynchronised-cache')
+    return True
+
+
+FLOAT_TYPES = {'float': 24, 'double': 53, 'long double': 64}          # significand bits
+INT_TYPES_ = {'char': (8, True), 'signed char': (8, True), 'unsigned char': (8, False), 'short': (16, True), 'unsigned short': (16, False),
+              'int': (32, True), 'unsigned int': (32, False), 'long': (64, True), 'unsigned long': (64, False),
+              'long long': (64, True), 'unsigned long long': (64, False), 'bool': (1, False)}
+VALUE_CASTS = ('IntegralCast', 'IntegralToFloating', 'FloatingToIntegral', 'FloatingCast', 'IntegralToBoolean', 'FloatingToBoolean')
+
+
+def scalar_type(ct):
+    ct = re.sub(r'\b(const|volatile)\b', '', ct or '').replace('&', '').strip()
+    ct = re.sub(r'\s+', ' ', ct)
+    return ct if ct in FLOAT_TYPES or ct in INT_TYPES_ else None
+
+
+def represents(T, S):
+    """can the scalar type T hold every value of the scalar type S exactly?  (None: not both recognised scalar types)"""
+    if T is None or S is None:
+        return None
+    if T == S:
+        return True
+    if S in INT_TYPES_:
+        sb, ss = INT_TYPES_[S]
+        vb = sb - 1 if ss else sb
+        if T in INT_TYPES_:
+            tb, ts = INT_TYPES_[T]
+            return (tb - 1 if ts else tb) >= vb and (ts or not ss)
+        return FLOAT_TYPES[T] >= vb
+    if T in FLOAT_TYPES:
+        return FLOAT_TYPES[T] >= FLOAT_TYPES[S]
+    return False
+
+
+def reaches_get(tu, n, env, depth=0):
+    if n is None or depth > 12:
+        return False
+    for x in tu.walk(n):
+        if x.get('kind') == 'CXXMemberCallExpr' and strip_targs(tu.sd(x).get('q', '')).endswith('Array3D::get'):
+            return True
+        if x.get('kind') == 'DeclRefExpr' and x.get('referencedDecl', {}).get('id') in env:
+            if reaches_get(tu, env[x['referencedDecl']['id']], env, depth + 1):
+                return True
+    return False
+
+
+def helper_result(tu, c, args, env):
+    """(return expression, env) of a small non-dependent helper: parameters bound to the argument expressions, initialised locals
+    recorded, one return at the end; None for any other body"""
+    body = tu.body(c) if c is not None else None
+    if body is None or c['dep'] or len(c.get('params', [])) != len(args):
+        return None
+    env = dict(env)
+    for prm, av in zip(c['params'], args):
+        env[prm['id']] = av
+    sts = tu.kids(body)
+    for i, st in enumerate(sts):
+        if st.get('kind') == 'DeclStmt':
+            for d in tu.kids(st):
+                if d.get('kind') != 'VarDecl' or not tu.kids(d):
+                    return None
+                env[d['id']] = tu.kids(d)[-1]
+        elif st.get('kind') == 'ReturnStmt' and i == len(sts) - 1 and tu.kids(st):
+            return tu.kids(st)[0], env
+        elif st.get('kind') in ('ParenExpr', 'NullStmt'):
+            continue
+        else:
+            return None
+    return None
+
+
+def conversion_chain(tu, n, env):
+    """Follow the value of expression n down to the Array3D::get call it is computed from.
+    -> (get call node, [scalar types the value is converted to, innermost first], [clamping calls passed], reason it stopped | None)"""
+    types, clamps = [], []
+    for _ in range(200):
+        if n is None:
+            return None, types, clamps, 'empty expression'
+        k = n.get('kind')
+        ks = tu.kids(n)
+        if k in ('ExprWithCleanups', 'MaterializeTemporaryExpr', 'ParenExpr', 'CXXBindTemporaryExpr', 'ConstantExpr') and ks:
+            n = ks[0]
+            continue
+        if k in ('ImplicitCastExpr', 'CStyleCastExpr', 'CXXStaticCastExpr', 'CXXFunctionalCastExpr') and ks:
+            ck = n.get('castKind')
+            if ck in VALUE_CASTS:
+                ty = scalar_type(tu.sd(n).get('ct') or (n.get('type') or {}).get('qualType'))
+                if ty is None:
+                    return None, types, clamps, 'conversion to %s' % (tu.sd(n).get('ct') or '?')
+                types.append(ty)
+            elif ck not in ('NoOp', 'LValueToRValue'):
+                return None, types, clamps, 'cast of kind %s' % ck
+            n = ks[-1]
+            continue
+        if k == 'DeclRefExpr':
+            d = n.get('referencedDecl', {}).get('id')
+            if d in env:
+                n = env[d]
+                continue
+            return None, types, clamps, 'reads %s' % n.get('referencedDecl', {}).get('name')
+        if k == 'CXXMemberCallExpr' and strip_targs(tu.sd(n).get('q', '')).endswith('Array3D::get'):
+            types.reverse()
+            return n, types, clamps, None
+        if k == 'CallExpr':
+            s_, _, args = tu.call_parts(n)
+            q = strip_targs(s_.get('q', ''))
+            if q in MINMAX or q == 'rkcommon::math::clamp':
+                dep = [a_ for a_ in args if reaches_get(tu, a_, env)]
+                if len(dep) != 1 or (q == 'rkcommon::math::clamp' and dep[0] is not args[0]):
+                    return None, types, clamps, 'call of %s' % q
+                clamps.append(q.split('::')[-1])
+                n = dep[0]
+                continue
+            hr = helper_result(tu, tu.callee_fn(n), args, env)
+            if hr is None:
+                return None, types, clamps, 'call of %s' % q
+            n, env = hr
+            continue
+        return None, types, clamps, 'expression of kind %s' % k
+    return None, types, clamps, 'too deep'
+
+
+def check_accessor_get(ctx, tu, f, R, inst, key, act, where):
+    """Array3DAccessor<in_t, out_t>::get(where) is (out_t)actual->get(where): the cell converted once, directly.  A conversion that
+    first passes through a type unable to hold every in_t value (and other than out_t itself) returns a different value for the cells
+    that type cannot hold."""
+    GET = 'rkcommon::array3D::Array3D::get'
+    loc = tu.fn_loc(f)
+    hr = helper_result(tu, f, [None] * len(f.get('params', [])), {})
+    if hr is None:
+        ctx.undecided(R, inst, 'body is not a return preceded by initialised locals', loc)
+        return
+    ret, env = hr
+    env = {k_: v_ for k_, v_ in env.items() if v_ is not None}
+    g, types, clamps, why = conversion_chain(tu, ret, env)
+    if g is None:
+        ctx.undecided(R, inst, 'returns %s: the value is not traced back to a get() of another array (%s)' % (tu.show(ret)[:80], why), loc)
+        return
+    call = drop_casts(nf(tu, g, {}))
+    if not (call[0] == 'call' and call[1] == GET and call[2] == act and call[3] == (where,)):
+        ctx.undecided(R, inst, 'converts %s' % show(call), loc)
+        return
+    in_t = scalar_type(tu.sd(g).get('ct') or (g.get('type') or {}).get('qualType'))
+    out_t = scalar_type(f['fty'].split('(')[0])
+    if in_t is None or out_t is None:
+        ctx.undecided(R, inst, 'cell types %s -> %s are not both arithmetic types' % (tu.sd(g).get('ct'), f['fty'].split('(')[0].strip()), loc)
+        return
+    seq = list(types)
+    if not seq or seq[-1] != out_t:
+        seq.append(out_t)
+    bad = None
+    for i, T in enumerate(seq[:-1]):
+        if represents(T, in_t):
+            continue
+        if T == out_t and all(represents(T2, out_t) for T2 in seq[i + 1:]):
+            break
+        bad = T
+        break
+    if bad is not None:
+        bits = lambda T: ('%d significant bits' % FLOAT_TYPES[T]) if T in FLOAT_TYPES else \
+            ('%d value bits' % (INT_TYPES_[T][0] - (1 if INT_TYPES_[T][1] else 0)))
+        ex = ''
+        if in_t in INT_TYPES_ and bad in FLOAT_TYPES:
+            ex = ' (e.g. the cell %d becomes %d; the largest values round up past the range of the source type)' \
+                 % (2 ** FLOAT_TYPES[bad] + 1, 2 ** FLOAT_TYPES[bad])
+        elif in_t in FLOAT_TYPES and bad in INT_TYPES_:
+            ex = ' (the fraction is dropped and large magnitudes do not fit)'
+        ctx.violation(R, inst, 'the cell (%s) is converted to %s before it is converted to %s: %s has %s, %s needs %s, so every cell value '
+                      'that %s cannot hold is altered on the way%s; the accessor is the single conversion (out_t)actual->get(where)%s'
+                      % (in_t, bad, out_t, bad, bits(bad), in_t, bits(in_t), bad, ex,
+                         ' - chain: %s' % ' -> '.join([in_t] + seq) if len(seq) > 2 else ''), loc, key=key + 'lossy-intermediate')
+    elif clamps:
+        ctx.undecided(R, inst, 'the cell passes through %s on its way (%s): a saturating conversion, equal to the cast only for cells inside '
+                      'the bounds - not decided' % (' / '.join(clamps), ' -> '.join([in_t] + seq)), loc)
+    else:
+        ctx.ok(R, inst, 'conversion of actual->get(where)%s' % (' (%s)' % ' -> '.join([in_t] + seq) if len(seq) > 1 else ''), loc)
+
+
 def check_adaptors(ctx, tu):
     R = 'R-C17-5'
     n = 0
@@ -1689,6 +2069,11 @@ def check_adaptors(ctx, tu):
         if mname == 'set':
             continue        # the adaptors' set() throw; not part of the property
         n += 1
+        if mname == 'get' and check_get_is_readonly(ctx, tu, f, R, inst, key):
+            continue
+        if mname == 'get' and cls == 'Array3DAccessor':
+            check_accessor_get(ctx, tu, f, R, inst, key, act, where)
+            continue
         t = one_return(f, inst)
         if t is None:
             continue
@@ -2697,6 +3082,7 @@ def run(ctx):
     check_left_inverse(ctx, ir)
     adims = check_formulas(ctx, ir)
     check_for_each(ctx, tu)
+    check_for_each_callable(ctx, tu)
     check_iterator_lifetime(ctx, tu)
     check_iterators(ctx, ir)
     check_adaptors(ctx, tu)
